@@ -419,4 +419,13 @@ for _f, _id in ((guard_bypass, "C02.GUARD-bypass"), (wmc_link, "C02.WMC-link"), 
                 (ensure_raise, "C02.PDOM-raise"), (dtab_can_recompute, "C02.DTAB-can-recompute")):
     _f.rule_id = _id
 
-RULES = [guard_bypass, wmc_link, pdom_height, ensure_raise, dtab_can_recompute]
+def dtab_scope(ctx, prog):
+    """created_in.height() is what became_necessary / invalidate_node / the shortcut guard place nodes above:
+    it must be the lhs-change node's height (shared with C03)."""
+    from .c03 import dtab_scope as f
+    f(ctx, prog, "C02.DTAB-scope")
+
+
+dtab_scope.rule_id = "C02.DTAB-scope"
+
+RULES = [guard_bypass, wmc_link, pdom_height, ensure_raise, dtab_can_recompute, dtab_scope]
